@@ -30,6 +30,54 @@ CLAIMED = {
              'coefficients, their number and the number of consumed chunks must equal Algorithm 3 on that stream, every coefficient < q, and the XOF must have absorbed exactly the input once.',
         note='SHAKE-256 (sha3 crate) is trusted: its output is modelled as arbitrary bytes (sound over-approximation). n = 512/1024 differ only in loop trip count and are outside the bound.',
         design='DESIGN.md §4 C14'),
+    'C02': dict(
+        engine='M (mirsym over rustc MIR + z3), composed with C07/C11/C12/C14',
+        technique='path-wise symbolic execution of the MIR of verify::<N> (toy N with the real Falcon-512/1024 parameters) with z3: structural check of the NTT wiring, s1 as a free canonical vector, squares abstracted; boundary witnesses required; counterexamples rebuilt as real Falcon-512/1024 (msg, sig, pk) triples and replayed natively',
+        text='The acceptance predicate of verify (bound constants, comparison operator, centred reduction, inclusion of s2, rejection on decode failure, operands handed to the NTT pipeline) is decided for ALL (c, h, s2) '
+             'at toy degrees with the real parameter sets, and with the real decompress composed in on fully symbolic short signatures; norm = bound-1, bound, bound+1 must be reachable. Composition with C07 (decoding), '
+             'C14 (hash), C11 (NTT product), C12 (field) gives the statement for the production degrees on paper.',
+        note='Not end-to-end at N = 512/1024. Trusted: mirsym summaries, z3, the NTT contract (C11), SHAKE-256. The bijection argument c -> c - s2*h (s1 free) and the square abstraction are stated in DESIGN §8.2.',
+        design='DESIGN.md §4 C02, §8.2'),
+    'C03': dict(
+        engine='M (mirsym over rustc MIR + z3)',
+        technique='path-wise symbolic execution of the MIR (overflow checks on) of decompress, the three from_bytes parsers and verify::<N>: every assert terminator and every modelled library panic is a z3 obligation over symbolic bytes; violations replayed natively in dev and release',
+        text='Panic-freedom obligations on the real MIR: decompress on all buffers within C07\'s bounds; PublicKey/SecretKey/Signature::from_bytes with every byte symbolic at the accepted and at wrong lengths; '
+             'verify at toy N with the real parameters. Each obligation is discharged by the solver for all inputs in the bound or yields a concrete panicking input.',
+        note='SecretKey::from_bytes\' floating-point tail (FFT, ffLDL) is outside; panics inside dependencies beyond the modelled ones (index, unwrap, try_into) are outside.',
+        design='DESIGN.md §4 C03'),
+    'C05': dict(
+        engine='M (mirsym over rustc MIR + z3)',
+        technique='symbolic execution of to_bytes then from_bytes (real MIR) on symbolic objects of the representable set; sizes and field-wise equality decided by z3; claimed at the codec layer',
+        text='For every public key with h_i < q, every signature (any salt, any compressed part of the right length) and every secret key with f, g, F inside their field ranges: to_bytes has the variant\'s constant length and '
+             'from_bytes(to_bytes(x)) = Ok(x) field for field. Quick: coefficient windows symbolic; thorough: all windows.',
+        note='Codec layer only: "every generated key is representable" and "the decoded key signs verifiable signatures" need keygen/sign from a seed (floating point, CSPRNG) and are outside this family (DESIGN §4 C05).',
+        design='DESIGN.md §4 C05'),
+    'C06': dict(
+        engine='M (mirsym over rustc MIR + z3)',
+        technique='symbolic execution of from_bytes then to_bytes (real MIR) with EVERY byte of the production-size buffers symbolic; per accepting path a bit-vector equality to_bytes(from_bytes(b)) = b decided by z3 (cone-of-influence queries); wrong lengths must have no accepting path',
+        text='Strictness is decided as: whenever from_bytes accepts b, re-encoding reproduces b bit for bit - over all 2^(8L) buffers of the accepted length for the three types and both variants; lengths 0, 1, 2, L-1, L+1 and the '
+             'other variant\'s length must be rejected on every path; the secret-key field decoder is checked against its contract for all widths and bit patterns.',
+        note='Secret keys: quick tier keeps header + nine 40-byte windows symbolic, thorough every byte. G and the LDL tree are outside (recomputed by floating-point code). Trusted: mirsym summaries, z3.',
+        design='DESIGN.md §4 C06'),
+    'C09': dict(
+        engine='K (Kani/CBMC) + M (mirsym + z3)',
+        technique='Kani/CBMC bounded model checking of base_sampler (all 2^72 inputs vs the RCDT of the specification) and of ber_exp totality; mirsym term equality of approx_exp with the specification\'s loop (solver / point-instance fallback)',
+        text='Building blocks: base_sampler equals #{i: u < RCDT[i]} for every input; ber_exp never panics for x in [0,1024), ccs in [1/2,1] and every 7-byte string; approx_exp\'s result term equals ApproxExp of the specification for all x, ccs.',
+        note='Claimed for the building blocks and totality only. NOT decided: the distribution of the output, termination for every byte stream, sampler_z\'s loop body (not built), underflow-freedom inside approx_exp\'s polynomial evaluation.',
+        design='DESIGN.md §4 C09, §8.2'),
+    'C11': dict(
+        engine='K (Kani/CBMC) + S (SymField + z3) + M (mirsym)',
+        technique='Kani: twiddle tables and n^-1 constants with symbolic index (exhaustive); engine S: the crate\'s generic fft/ifft/split/merge run on symbolic terms, QF_LIA decided by z3 for all vectors in Z_q^n; mirsym: FastFft glue per n',
+        text='Tables: every entry is psi^bitrev(i) for a primitive 2048-th root, inverse table entries are inverses, n*NINV_n = 1. Transforms: ifft(fft(a)) = a, fft(ifft(a)) = a, merge(split(F)) = F, split(fft(a)) = (fft(a_even), fft(a_odd)) '
+             'and ifft(fft(a) .* fft(X^j)) = X^j*a for ALL a in Z_q^n (n <= 64 / 16 quick, 256 / 64 thorough). Glue: each n in {1..1024} hands the right table and constant to the generic code.',
+        note='Fully symbolic transforms at n = 512/1024 exceed z3\'s memory: those sizes are covered structurally (size-independent butterflies + every table entry + every size-specific constant/arm). Product for arbitrary b follows from monomials by linearity (C12) - an argument on paper.',
+        design='DESIGN.md §4 C11'),
+    'C13': dict(
+        engine='K (Kani/CBMC) + S (SymField + z3) + M (mirsym)',
+        technique='Kani: recurrences over all 1024 complex table entries (symbolic index); engine S: butterfly identities of the shared generic code over Z_q; mirsym: Complex64 FastFft glue per n compared with exp(i*pi*bitrev(j)/1024)',
+        text='Reduced level: every table entry is pinned by T[2j]^2 = T[j], T[2j+1] = i*T[2j] (1e-15); the generic split/merge/fft/ifft index and twiddle structure is proved over Z_q; for each n the Complex64 impl passes the table / its conjugate / 1/n.',
+        note='The 2^-30 accuracy bound itself is NOT decided (rounding-error accumulation over 10 layers is beyond bit-precise float solving). Realistic breakages (bad entry, wrong conjugate, swapped butterfly, wrong scaling) are covered.',
+        design='DESIGN.md §4 C13'),
 }
 
 NOT_APPLICABLE = {
@@ -41,7 +89,7 @@ NOT_APPLICABLE = {
     'C16': 'needs the PQClean reference implementation as oracle (absent, C behind FFI) and an end-to-end sign/verify exchange (DESIGN §5)',
     'C17': 'float quotient (FFT, division, rounding) + modular/BigInt algebra at n up to 1024; even n=2 of the modular half is beyond the SAT back end (DESIGN §5)',
 }
-PENDING = {k: 'check not built yet in this revision (planned, see DESIGN §4); not claimed until it runs end to end' for k in ['C02', 'C03', 'C05', 'C06', 'C09', 'C11', 'C13']}
+PENDING = {}
 
 
 def build():
@@ -89,7 +137,7 @@ def build():
 
 
 HOOK_COMMITS = ['7e95cf1']
-FIX_COMMITS = ['56bfc38', '44525a6', '714f854', 'b655c1b']
+FIX_COMMITS = ['56bfc38', '44525a6', '714f854', 'b655c1b', '0af0b18', 'df57fa1']
 
 if __name__ == '__main__':
     json.dump(build(), open('/verif/MANIFEST.json', 'w'), indent=1)
